@@ -89,7 +89,6 @@ structure Relab (ρ : Path → Path) (t : Tabs) (st st' : SM.St) : Prop where
   glob : st'.globals = st.globals
   has : ∀ q, st'.has (ρ q) = st.has q
   plain : ∀ q x, nsPlain (t.mapPaths ρ) st' (ρ q) x = nsPlain t st q x
-  slots : ∀ e ∈ t.slots, ρ e.1 = e.1
 
 section relab
 variable {ρ : Path → Path} {t : Tabs} {st st' : SM.St} (h : Relab ρ t st st')
@@ -111,29 +110,52 @@ theorem Relab.cellInfo (c : CellId) :
     · cases st.mem .cells q x <;> rfl
     · rfl
 
-theorem Relab.slots_eq : (t.mapPaths ρ).slots = t.slots := by
-  show mapFst ρ t.slots = t.slots
-  unfold mapFst
-  conv => rhs; rw [← List.map_id t.slots]
-  apply List.map_congr_left
-  intro e he
-  rw [h.slots e he]; rfl
+omit h in
+theorem spellOf_of_find (sp : List (Path × Path)) (q : Path) (e : Path × Path)
+    (hf : sp.find? (fun a => a.1 == q) = some e) : Edit.spellOf sp q = e.2 := by
+  unfold Edit.spellOf; rw [hf]
 
-theorem Relab.qualOf (q : Path) (x : String) : qualOf (t.mapPaths ρ) (ρ q) x = qualOf t q x := by
+theorem Relab.spellOf (e : Path × String) (he : e ∈ t.slots) :
+    spellOf (t.mapPaths ρ).spell (ρ e.1) = Edit.spellOf t.spell e.1 := by
+  show Edit.spellOf (t.slots.map (fun e => (ρ e.1, Edit.spellOf t.spell e.1))) (ρ e.1) = _
+  have key : ∀ (l : List (Path × String)), e ∈ l →
+      (l.map (fun e => (ρ e.1, Edit.spellOf t.spell e.1))).find? (fun a => a.1 == ρ e.1) =
+        some (ρ e.1, Edit.spellOf t.spell e.1) := by
+    intro l
+    induction l with
+    | nil => intro h; cases h
+    | cons a l ih =>
+      intro hmem
+      simp only [List.map_cons, List.find?_cons]
+      by_cases ha : a.1 = e.1
+      · simp [ha]
+      · have : (ρ a.1 == ρ e.1) = false := by
+          simp only [beq_eq_false_iff_ne, ne_eq]
+          exact fun e2 => ha (h.inj _ _ e2)
+        rw [this]
+        rcases List.mem_cons.mp hmem with rfl | hm
+        · exact absurd rfl ha
+        · exact ih hm
+  exact spellOf_of_find _ _ _ (key t.slots he)
+
+theorem Relab.qualOf (q : Path) (x : String) :
+    qualOf (t.mapPaths ρ) (ρ q) x = (qualOf t q x).map (fun e => (ρ e.1, e.2)) := by
   unfold Edit.qualOf
-  rw [h.slots_eq]
+  show (mapFst ρ t.slots).find? _ = _
+  unfold mapFst
+  rw [List.find?_map]
+  congr 1
   apply find?_congr_mem
   intro e he
-  unfold spelled
-  have : (e.1 == ρ q) = (e.1 == q) := by
+  simp only [Function.comp, spelled]
+  rw [h.spellOf e he]
+  have : (ρ e.1 == ρ q) = (e.1 == q) := by
     by_cases hq : e.1 = q
-    · subst hq; rw [h.slots e he]
+    · subst hq; simp
     · have h1 : (e.1 == q) = false := by simpa using hq
       rw [h1]
       simp only [beq_eq_false_iff_ne, ne_eq]
-      intro e2
-      rw [← h.slots e he] at e2
-      exact hq (h.inj _ _ e2)
+      exact fun e2 => hq (h.inj _ _ e2)
   rw [this]
 
 theorem Relab.nsAt (q : Path) : nsAt (t.mapPaths ρ) st' (ρ q) = nsAt t st q := by
@@ -143,11 +165,8 @@ theorem Relab.nsAt (q : Path) : nsAt (t.mapPaths ρ) st' (ρ q) = nsAt t st q :=
   cases hq : Edit.qualOf t q x with
   | none => exact h.plain q x
   | some e =>
-    simp only [slotBinding]
-    have he : e ∈ t.slots := List.mem_of_find?_eq_some hq
-    have := rid_mapPaths ρ h.inj t e.1 e.2
-    rw [h.slots e he] at this
-    rw [this]
+    simp only [Option.map_some, slotBinding]
+    rw [rid_mapPaths ρ h.inj t e.1 e.2]
 
 theorem Relab.refPay (q : Path) (x : String) : refPay (t.mapPaths ρ) st' (ρ q) x = refPay t st q x := by
   unfold Edit.refPay
@@ -225,12 +244,11 @@ theorem contains_iff_of_mem_iff {l l' : List String} {x y : String} (h : x ∈ l
   cases h1 : l.contains x <;> cases h2 : l'.contains y <;> simp_all
 
 theorem relab_renameSpace (kw : List String) (t : Tabs) (st st' : SM.St) (h : SM.Inv st) (p : Path) (new : String)
-    (hop : st.renameSpace kw p new = .ok st') (hs : slotsFixed t p new = true) :
+    (hop : st.renameSpace kw p new = .ok st') :
     Relab (renameMap p new) t st st' := by
   obtain ⟨parent, old, rfl, hpid, _, hca, rfl, _⟩ := renameSpace_ok kw st st' h.wf _ new hop
   obtain ⟨hfree, _, hr, _⟩ := canAdd_space_free h.wf parent new hca
-  unfold slotsFixed at hs
-  rw [renameMap_snoc] at hs ⊢
+  rw [renameMap_snoc]
   have hinj := swapAt_inj parent old new
   have hconts : ∀ a q, conts ({ st.mapPaths (SM.swapAt parent old new) with
       namers := st.namers.map (fun e => (relabel (parent ++ [old]) new e.1, e.2)) } : SM.St) a
@@ -242,7 +260,7 @@ theorem relab_renameSpace (kw : List String) (t : Tabs) (st st' : SM.St) (h : SM
         (SM.swapAt parent old new q) n = st.mem a q n := by
     intro a q n
     exact mem_mapPaths _ st hinj a q n
-  refine ⟨hinj, hconts, rfl, ?_, ?_, ?_⟩
+  refine ⟨hinj, hconts, rfl, ?_, ?_⟩
   · intro q
     show ((st.mapPaths (SM.swapAt parent old new)).find (SM.swapAt parent old new q)).isSome = (st.find q).isSome
     rw [find_mapPaths _ st hinj]
@@ -280,17 +298,14 @@ theorem relab_renameSpace (kw : List String) (t : Tabs) (st st' : SM.St) (h : SM
             exact absurd hC' hC
         simp only [hC, hC', if_true, hR, Option.isSome_none, Bool.false_eq_true, if_false]
       · simp only [hC, hC']
-  · intro e he
-    rw [List.all_eq_true] at hs
-    simpa using hs e he
 
 /-- **an accepted `space.rename` changes no definition the executor sees**: the formula of every cells
 (its source resolved in the namespace of its space), the flags, the value of every reference, the observers
 – for every identity, as `Env`s -/
 theorem envOf_renameSpace (P : Params) (t : Tabs) (st st' : SM.St) (h : SM.Inv st) (p : Path) (new : String)
-    (hop : st.renameSpace P.kw p new = .ok st') (hs : slotsFixed t p new = true) :
+    (hop : st.renameSpace P.kw p new = .ok st') :
     envOf P (t.mapPaths (renameMap p new)) st' = envOf P t st :=
-  envOf_relabel (relab_renameSpace P.kw t st st' h p new hop hs) P
+  envOf_relabel (relab_renameSpace P.kw t st st' h p new hop) P
 
 theorem allocOK_renameSpace (kw : List String) (t : Tabs) (st st' : SM.St) (h : SM.Inv st) (ha : AllocOK t st)
     (p : Path) (new : String) (hop : st.renameSpace kw p new = .ok st') :
@@ -328,22 +343,17 @@ theorem allocOK_renameSpace (kw : List String) (t : Tabs) (st st' : SM.St) (h : 
 
 variable {P : Params} {lt : Node → Node → Prop}
 
-/-- the side condition of a rename step (`slotsFixed`); every other step: none -/
-def SlotsOK (w : W) : OpR → Prop
-  | .renameSpace p new => slotsFixed w.tabs p new = true
-  | .g _ => True
-
-theorem stepR_rename_env (w : W) (p : Path) (new : String) (h : CIG P lt w)
-    (hs : slotsFixed w.tabs p new = true) : (stepR P w (.renameSpace p new)).env P = w.env P := by
+theorem stepR_rename_env (w : W) (p : Path) (new : String) (h : CIG P lt w) :
+    (stepR P w (.renameSpace p new)).env P = w.env P := by
   simp only [stepR]
   cases hop : w.sm.renameSpace P.kw p new with
   | error e => rfl
-  | ok st' => exact envOf_renameSpace P w.tabs w.sm st' h.inv p new hop hs
+  | ok st' => exact envOf_renameSpace P w.tabs w.sm st' h.inv p new hop
 
 /-- **`space.rename` keeps the invariant** -/
-theorem stepR_rename_cig (w : W) (p : Path) (new : String) (hw : WF (w.env P) lt) (h : CIG P lt w)
-    (hs : slotsFixed w.tabs p new = true) : CIG P lt (stepR P w (.renameSpace p new)) := by
-  have henv := stepR_rename_env w p new h hs
+theorem stepR_rename_cig (w : W) (p : Path) (new : String) (hw : WF (w.env P) lt) (h : CIG P lt w) :
+    CIG P lt (stepR P w (.renameSpace p new)) := by
+  have henv := stepR_rename_env w p new h
   revert henv
   simp only [stepR]
   cases hop : w.sm.renameSpace P.kw p new with
@@ -354,19 +364,18 @@ theorem stepR_rename_cig (w : W) (p : Path) (new : String) (hw : WF (w.env P) lt
     rw [henv]
     exact (doClears_facts hw.scoping hw.noCatch _ _ h.ci).1
 
-theorem stepR_cig (ho : StrictOrder lt) (w : W) (op : OpR) (hw : WF (w.env P) lt) (h : CIG P lt w)
-    (hs : SlotsOK w op) : CIG P lt (stepR P w op) := by
+theorem stepR_cig (ho : StrictOrder lt) (w : W) (op : OpR) (hw : WF (w.env P) lt) (h : CIG P lt w) :
+    CIG P lt (stepR P w op) := by
   cases op with
   | g o => exact stepG_cig ho w o hw h
-  | renameSpace p new => exact stepR_rename_cig w p new hw h hs
+  | renameSpace p new => exact stepR_rename_cig w p new hw h
 
 variable (P lt)
 
-/-- the definitions stay in the regime after every operation; a rename finds no declared slot in the
-spaces it relabels -/
+/-- the definitions stay in the regime after every operation (a rename keeps it: `stepR_rename_env`) -/
 def AdmissibleR : W → List OpR → Prop
   | _, [] => True
-  | w, op :: ops => SlotsOK w op ∧ WF ((stepR P w op).env P) lt ∧ AdmissibleR (stepR P w op) ops
+  | w, op :: ops => WF ((stepR P w op).env P) lt ∧ AdmissibleR (stepR P w op) ops
 
 variable {P lt}
 
@@ -377,8 +386,8 @@ theorem runR_cig (ho : StrictOrder lt) : ∀ (ops : List OpR) (w : W), WF (w.env
   | nil => intro w hw h _; exact ⟨h, hw⟩
   | cons op rest ih =>
     intro w hw h hadm
-    obtain ⟨h1, h2, h3⟩ := hadm
-    exact ih (stepR P w op) h2 (stepR_cig ho w op hw h h1) h3
+    obtain ⟨h2, h3⟩ := hadm
+    exact ih (stepR P w op) h2 (stepR_cig ho w op hw h) h3
 
 theorem stepR_rg (w : W) (op : OpR) (hw : WF (w.env P) lt) (h : CIG P lt w)
     (hr : RgNoInputs w.ex) : RgNoInputs (stepR P w op).ex := by
@@ -431,8 +440,8 @@ theorem runR_sim (ho : StrictOrder lt) : ∀ (ops : List OpR) (w1 w2 : W), WF (w
   | nil => intro w1 w2 hw h1 h2 _ _ hs _; exact ⟨hs, h1, h2, hw⟩
   | cons op rest ih =>
     intro w1 w2 hw h1 h2 r1 r2 hs hadm
-    obtain ⟨a1, a2, a3⟩ := hadm
-    have c1 := stepR_cig ho w1 op hw h1 a1
+    obtain ⟨a2, a3⟩ := hadm
+    have c1 := stepR_cig ho w1 op hw h1
     have g1 := stepR_rg w1 op hw h1 r1
     by_cases hev : isEvalR op = true
     · have : noEvalsR (op :: rest) = noEvalsR rest := by simp [noEvalsR, List.filter, hev]
@@ -451,11 +460,7 @@ theorem runR_sim (ho : StrictOrder lt) : ∀ (ops : List OpR) (w1 w2 : W), WF (w
       have : noEvalsR (op :: rest) = op :: noEvalsR rest := by simp [noEvalsR, List.filter, hev']
       rw [this]
       have hw2 : WF (w2.env P) lt := by rw [hs.env_eq P]; exact hw
-      have a1' : SlotsOK w2 op := by
-        cases op with
-        | g o => trivial
-        | renameSpace p new => show slotsFixed w2.tabs p new = true; rw [hs.tabs]; exact a1
-      have c2 := stepR_cig ho w2 op hw2 h2 a1'
+      have c2 := stepR_cig ho w2 op hw2 h2
       have g2 := stepR_rg w2 op hw2 h2 r2
       exact ih _ _ a2 c1 c2 g1 g2 (stepR_sim ho w1 w2 op hw h1 h2 r1 r2 hs) a3
 
